@@ -294,13 +294,13 @@ const fsHeader = "//go:build cff\n// +build cff\n\npackage fsp\n\nimport (\n\t\"
 
 var fsFiles = map[string]string{
 	"a.go":      fsHeader + "// A runs a flow.\nfunc A(ctx context.Context) (int, error) {\n\tvar x int\n\terr := cff.Flow(ctx, cff.Results(&x), cff.Task(func() int { return 1 }))\n\treturn x, err\n}\n",
-	"b.go":      fsHeader + "// B runs a parallel.\nfunc B(ctx context.Context) error {\n\treturn cff.Parallel(ctx, cff.Task(func() {}), cff.Slice(func(i int, s string) {}, []string{\"x\"}))\n}\n",
+	"b.v2.go":   fsHeader + "// B runs a parallel.\nfunc B(ctx context.Context) error {\n\treturn cff.Parallel(ctx, cff.Task(func() {}), cff.Slice(func(i int, s string) {}, []string{\"x\"}))\n}\n",
 	"c.go":      "//go:build cff\n// +build cff\n\npackage fsp\n\n// C has the tag but no directive.\nfunc C() int { return 3 }\n",
 	"d_test.go": "//go:build cff\n// +build cff\n\npackage fsp\n\nimport (\n\t\"context\"\n\t\"testing\"\n\n\t\"go.uber.org/cff\"\n)\n\nfunc TestD(t *testing.T) {\n\tvar x string\n\tif err := cff.Flow(context.Background(), cff.Results(&x), cff.Task(func() string { return \"d\" })); err != nil {\n\t\tt.Fatal(err)\n\t}\n}\n",
 	"e.go":      "package fsp\n\n// E is an ordinary file without the cff tag.\nfunc E() int { return 5 }\n",
 }
 
-var fsHasDirective = map[string]bool{"a.go": true, "b.go": true, "d_test.go": true}
+var fsHasDirective = map[string]bool{"a.go": true, "b.v2.go": true, "d_test.go": true}
 
 func defaultOut(name string) string {
 	if strings.HasSuffix(name, "_test.go") {
@@ -397,7 +397,7 @@ func (r *fsRun) exec(cffBin, root, repo string) {
 // fileSetRuns enumerates every non-empty subset of the processable files x
 // every choice of default/explicit output, plus the whole package.
 func fileSetRuns(modes []string) []*fsRun {
-	names := []string{"a.go", "b.go", "c.go", "d_test.go"}
+	names := []string{"a.go", "b.v2.go", "c.go", "d_test.go"}
 	var runs []*fsRun
 	for _, mode := range modes {
 		whole := &fsRun{Desc: "whole package", Mode: mode, Args: cffArgs(mode, "./fsp"), Allowed: map[string]string{}, Default: true}
@@ -634,7 +634,7 @@ func c16Main(tier, build, repo, cffBin string) {
 			"directive_spans_masked":        spansTotal,
 			"file_set_invocations":          len(runs),
 			"known_findings_hit":            rep.KnownHits,
-			"rule":                          "states = build-constraint headers + programs + file-set invocations enumerated; (a) all //go:build expressions of depth<=2 over {cff,a,b} (thorough: plus depth-2 x depth-1 combinations), all // +build lines with <=2 groups of <=2 terms, 2- and 3-line forms, both syntaxes together, headers split by comments: each through the real writeInvertedCffTag, go/build.MatchFile decides selection for all 8 tag assignments, distinct = distinct generated headers; headers selecting the file under {cff} also go end to end through the cff binary; (b) source vs output of every accepted family program with directive spans masked, declarations re-printed and compared, imports superset; (c) every non-empty subset of {a.go,b.go,c.go,d_test.go} x default/explicit output per file, plus whole package, x {base,source-map}, tree hashed before and after in a fresh copy, TMPDIR watched",
+			"rule":                          "states = build-constraint headers + programs + file-set invocations enumerated; (a) all //go:build expressions of depth<=2 over {cff,a,b} (thorough: plus depth-2 x depth-1 combinations), all // +build lines with <=2 groups of <=2 terms, 2- and 3-line forms, both syntaxes together, headers split by comments: each through the real writeInvertedCffTag, go/build.MatchFile decides selection for all 8 tag assignments, distinct = distinct generated headers; headers selecting the file under {cff} also go end to end through the cff binary; (b) source vs output of every accepted family program with directive spans masked, declarations re-printed and compared, imports superset; (c) every non-empty subset of {a.go,b.v2.go,c.go,d_test.go} x default/explicit output per file, plus whole package, x {base,source-map}, tree hashed before and after in a fresh copy, TMPDIR watched",
 		},
 		Assumptions: []string{"go/build.Context.MatchFile is the judge of file selection", "tags other than cff,a,b and GOOS/GOARCH-like tags are not enumerated", "comments are not compared in (b) (the property speaks of declarations, statements and expressions)"}}
 	if err := mc.WriteEvidence(ev); err != nil {
